@@ -212,7 +212,7 @@ impl Property for C04 {
     }
     fn run(&self, ctx: &Ctx, ev: &mut Evidence) -> Vec<Found> {
         ev.assumptions.push("a crash is modelled as: sentinel panic in front of the write, the instance is dropped without any further write, the directory is reopened (process death; RocksDB's WAL keeps what was written). Not power loss.".into());
-        let hs = histories(ctx.seed, ctx.tier.pick(5, 40));
+        let hs = histories(ctx.seed, ctx.tier.pick(8, 60));
         let plans: Vec<Plan> = hs.iter().map(|h| dry_run(h)).collect();
         let mut offsets = vec![];
         let mut total = 0u64;
